@@ -119,6 +119,9 @@ struct PipHarness : Harness {
     p.knobs["vars"] = r.range(1, 3); p.knobs["params"] = r.range(0, 2); p.knobs["pool"] = r.range(1, 2);
     p.knobs["strict"] = r.chance(30);
     p.knobs["allstrat"] = r.chance(50);
+    // most plans bound every parameter: with an unbounded parameter context the cutting-plane
+    // compatibility check of the library may not terminate (known finding, DESIGN.md)
+    p.knobs["pbound"] = r.chance(80);
     long n = r.range(5, thorough ? 24 : 14);
     static const char* kinds[] = { "add_constraint", "add_constraint", "add_constraint", "add_constraints", "solve", "solve", "solve", "is_satisfiable", "set_strategy", "add_dims", "copy", "assign", "dump_load", "clear" };
     for (long i = 0; i < n; ++i) {
@@ -132,6 +135,11 @@ struct PipHarness : Harness {
   }
 
   static std::string kl(const Op& op, const std::string& extra) { return "PIP_Problem|" + op.kind + "|-|" + extra; }
+
+  static void bound_param(Slot& s, dimension_type v) {
+    Row r; r.a.assign(s.m.dim, 0); r.a[v] = -1; r.b = PBOX; r.rel = 1; s.m.rows.push_back(r);
+    s.p->add_constraint(Variable(v) <= PBOX);
+  }
 
   static void bound_var(Slot& s, dimension_type v) {
     Row r; r.a.assign(s.m.dim, 0); r.a[v] = -1; r.b = VBOX; r.rel = 1; s.m.rows.push_back(r);
@@ -192,7 +200,8 @@ struct PipHarness : Harness {
   }
 
   void judge_solve(Ctx& ctx, const Op& op, Slot& s, bool sat_only) {
-    std::string who = std::string(s.added_after_solve ? "incremental" : "first-solve") + "|cut" + std::to_string(s.cut) + "|piv" + std::to_string(s.piv);
+    std::string who = std::string(s.added_after_solve ? "incremental" : "first-solve") + "|cut" + std::to_string(s.cut) + "|piv" + std::to_string(s.piv)
+      + (ctx.plan->knob("pbound", 0) ? "|pb1" : "|pb0");
     ctx.note(("@" + who).c_str());
     int st = solve_budgeted(ctx, op, *s.p, who, sat_only);
     if (st < 0) return;
@@ -205,7 +214,7 @@ struct PipHarness : Harness {
     bool all = ctx.plan->knob("allstrat", 0) != 0;
     for (int c = 0; c < 3; ++c) for (int pv = 0; pv < 2; ++pv) {
       if (!all && !(c == s.cut && pv == s.piv)) continue;
-      std::string fw = "fresh|cut" + std::to_string(c) + "|piv" + std::to_string(pv);
+      std::string fw = "fresh|cut" + std::to_string(c) + "|piv" + std::to_string(pv) + (ctx.plan->knob("pbound", 0) ? "|pb1" : "|pb0");
       ctx.note(("@" + fw).c_str());
       PIP_Problem f(s.p->space_dimension(), s.p->constraints_begin(), s.p->constraints_end(), s.p->parameter_space_dimensions());
       f.set_control_parameter(CUTS[c]); f.set_control_parameter(PIVS[pv]);
@@ -228,6 +237,7 @@ struct PipHarness : Harness {
       Constraint_System none;
       s.p.reset(new PIP_Problem(nv + np, none.begin(), none.end(), ps));
       for (dimension_type v = 0; v < nv; ++v) bound_var(s, v);
+      if (plan.knob("pbound", 0)) for (dimension_type v = nv; v < nv + np; ++v) bound_param(s, v);
     }
     long idx = -1;
     for (const Op& op : plan.ops) {
@@ -247,6 +257,7 @@ struct PipHarness : Harness {
           dimension_type old = x.m.dim; x.m.dim += mv + mp; for (auto& r : x.m.rows) r.a.resize(x.m.dim, 0);
           for (dimension_type i = old + mv; i < x.m.dim; ++i) x.m.params.insert(i);
           for (dimension_type i = old; i < old + mv; ++i) bound_var(x, i);
+          if (plan.knob("pbound", 0)) for (dimension_type i = old + mv; i < x.m.dim; ++i) bound_param(x, i);
           if (x.solved_before) x.added_after_solve = true; }
         else if (k == "solve") judge_solve(ctx, op, x, false);
         else if (k == "is_satisfiable") judge_solve(ctx, op, x, true);
